@@ -72,6 +72,8 @@ class C18(FprCheck):
                     if missing:
                         return {"key": "floating-atoms-do-not-contribute", "what": "with exclusion off, floating atoms %s have no identifier" % missing}
             return None
+        if case["t"] == "delete" and (not o["exclude_floating"] or bonded_heavy < 1 or nheavy <= 1):
+            return None      # the property speaks about molecules that retain a bonded heavy atom, with exclusion on
         a = self.robust_impl(base)
         if a is None or "err" in a:
             return None
